@@ -381,8 +381,8 @@ func (s *Sched) writerWaits(m uintptr, t *task) bool {
 
 const (
 	fastTriesPerTask = 64
-	politeTries      = 1000
-	politeSleep      = 100 * time.Microsecond
+	politeTries      = 2000
+	politeSleep      = time.Millisecond
 )
 
 func (s *Sched) acquire(try func() bool, read bool, name string) bool {
